@@ -177,7 +177,7 @@ class Context:
             pass
 
     # -- evaluation ------------------------------------------------------------------
-    def evaluate(self, cases, check=None, *, chunk=None, timeout=60, procs=None, keep=False):
+    def evaluate(self, cases, check=None, *, chunk=None, timeout=60, procs=None, keep=False, record=True):
         """Evaluate every case (a list of JSON-able dicts) with the real code, in parallel.
 
         Returns the list of outcomes aligned with `cases` when keep=True.
@@ -214,7 +214,10 @@ class Context:
                     for idx, res in part:
                         results[idx] = res
         for i, res in enumerate(results):
-            self.record(cases[i], res)
+            if res.get("harness"):
+                raise HarnessError(f"check() raised on case {canon_json(cases[i])[:600]}\n{res['detail']}")
+            if record:
+                self.record(cases[i], res)
         return results if keep else None
 
     def record(self, case, res):
